@@ -514,4 +514,216 @@ theorem equal_eq (op1 op2 : Nat) (h : Heap) :
     simp [h1, this]
   · have : h op1 ≠ h op2 := fun e => h1 (by rw [e])
     simp [h1, this]
+
+/-! ### mpq_mul_2exp / mpq_div_2exp -/
+
+theorem ctz_spec (x : Nat) (hx : x ≠ 0) : ∃ k, x = 2 ^ ctz x * (2 * k + 1) := by
+  induction x using Nat.strong_induction_on with
+  | _ x ih =>
+    rw [ctz]
+    simp only [hx, dite_false]
+    split_ifs with hodd
+    · exact ⟨x / 2, by omega⟩
+    · have h2 : x / 2 ≠ 0 := by omega
+      obtain ⟨k, hk⟩ := ih (x / 2) (by omega) h2
+      refine ⟨k, ?_⟩
+      generalize ctz (x / 2) = c at hk ⊢
+      calc x = 2 * (x / 2) := by omega
+        _ = 2 * (2 ^ c * (2 * k + 1)) := by rw [← hk]
+        _ = 2 ^ (c + 1) * (2 * k + 1) := by ring
+
+theorem B_eq_pow : B = 2 ^ 64 := rfl
+
+theorem skipLimbs_spec (m n : Nat) :
+    (skipLimbs m n).2 ≤ n ∧ (skipLimbs m n).1 * 2 ^ (n - (skipLimbs m n).2) = m ∧
+    ¬ ((skipLimbs m n).2 ≥ 64 ∧ (skipLimbs m n).1 % B = 0) := by
+  induction n using Nat.strong_induction_on generalizing m with
+  | _ n ih =>
+    rw [skipLimbs]
+    split_ifs with hc
+    · obtain ⟨i1, i2, i3⟩ := ih (n - 64) (by omega) (m / B)
+      refine ⟨by omega, ?_, i3⟩
+      generalize (skipLimbs (m / B) (n - 64)).1 = m' at *
+      generalize (skipLimbs (m / B) (n - 64)).2 = n' at *
+      have hm : m = m / B * B := (Nat.div_mul_cancel (Nat.dvd_of_mod_eq_zero hc.2)).symm
+      have : n - n' = (n - 64 - n') + 64 := by omega
+      rw [this, pow_add, ← mul_assoc, i2, ← B_eq_pow, ← hm]
+    · exact ⟨le_refl _, by simp, hc⟩
+
+/-- `mordR` on magnitudes -/
+def mordStep (m1 n1 : Nat) : Nat × Nat :=
+  if m1 % B % 2 = 1 ∨ n1 = 0 then (m1, n1)
+  else (m1 / 2 ^ (if m1 % B = 0 then n1 else min (ctz (m1 % B)) n1),
+        n1 - (if m1 % B = 0 then n1 else min (ctz (m1 % B)) n1))
+
+def mordMag (m n : Nat) : Nat × Nat := mordStep (skipLimbs m n).1 (skipLimbs m n).2
+
+theorem mordR_eq (r : Int) (n : Nat) :
+    mordR r n = (if r ≥ 0 then ((mordMag r.natAbs n).1 : ℤ) else -((mordMag r.natAbs n).1 : ℤ),
+                 (mordMag r.natAbs n).2) := by
+  unfold mordR mordMag mordStep
+  rcases skipLimbs r.natAbs n with ⟨m1, n1⟩
+  simp only []
+  split_ifs <;> rfl
+
+theorem mordMag_spec (m n : Nat) :
+    (mordMag m n).2 ≤ n ∧ (mordMag m n).1 * 2 ^ (n - (mordMag m n).2) = m ∧
+    ((mordMag m n).2 = 0 ∨ (mordMag m n).1 % 2 = 1) := by
+  obtain ⟨s1, s2, s3⟩ := skipLimbs_spec m n
+  unfold mordMag
+  generalize (skipLimbs m n).1 = m1 at *
+  generalize (skipLimbs m n).2 = n1 at *
+  unfold mordStep
+  have hmod : m1 % B % 2 = m1 % 2 := Nat.mod_mod_of_dvd m1 ⟨2 ^ 63, by rw [B_eq_pow]; norm_num⟩
+  split_ifs with hA hz
+  · exact ⟨s1, s2, by omega⟩
+  · -- low limb zero: fewer than 64 bits left to shift
+    have hn1 : n1 < 64 := by
+      by_contra hge; exact s3 ⟨by omega, hz⟩
+    have hdvd : 2 ^ n1 ∣ m1 := by
+      have h1 : B ∣ m1 := Nat.dvd_of_mod_eq_zero hz
+      have h2 : 2 ^ n1 ∣ B := by rw [B_eq_pow]; exact Nat.pow_dvd_pow 2 (by omega)
+      exact h2.trans h1
+    refine ⟨by omega, ?_, Or.inl (by omega)⟩
+    obtain ⟨q, rfl⟩ := hdvd
+    rw [Nat.mul_div_cancel_left q (by positivity), Nat.sub_self, Nat.sub_zero, ← s2]
+    have : n = n1 + (n - n1) := by omega
+    conv_lhs => rw [this]
+    rw [pow_add]; ring
+  · -- low limb non-zero
+    obtain ⟨k, hk⟩ := ctz_spec (m1 % B) hz
+    generalize ctz (m1 % B) = c at *
+    have hc : c < 64 := by
+      have h1 : 2 ^ c ≤ m1 % B := by rw [hk]; nlinarith [Nat.two_pow_pos c]
+      have h2 : m1 % B < 2 ^ 64 := by rw [← B_eq_pow]; exact Nat.mod_lt _ B_pos
+      exact (Nat.pow_lt_pow_iff_right (by norm_num : 1 < 2)).mp (lt_of_le_of_lt h1 h2)
+    -- m1 = 2^c * odd
+    have hm1 : m1 = 2 ^ c * (2 ^ (64 - c) * (m1 / B) + (2 * k + 1)) := by
+      have e : m1 = B * (m1 / B) + m1 % B := (Nat.div_add_mod m1 B).symm
+      have eB : B = 2 ^ c * 2 ^ (64 - c) := by rw [← pow_add, B_eq_pow]; congr 1; omega
+      rw [hk] at e
+      calc m1 = B * (m1 / B) + 2 ^ c * (2 * k + 1) := e
+        _ = 2 ^ c * 2 ^ (64 - c) * (m1 / B) + 2 ^ c * (2 * k + 1) := by rw [← eB]
+        _ = _ := by ring
+    have hodd : (2 ^ (64 - c) * (m1 / B) + (2 * k + 1)) % 2 = 1 := by
+      have : 2 ^ (64 - c) = 2 * 2 ^ (63 - c) := by rw [← pow_succ']; congr 1; omega
+      rw [this, mul_assoc]; omega
+    generalize 2 ^ (64 - c) * (m1 / B) + (2 * k + 1) = o at *
+    rcases Nat.le_total c n1 with hcn | hcn
+    · rw [min_eq_left hcn]
+      refine ⟨by omega, ?_, Or.inr ?_⟩
+      · rw [hm1, Nat.mul_div_cancel_left o (by positivity), ← s2, hm1]
+        have : n - (n1 - c) = c + (n - n1) := by omega
+        rw [this, pow_add]; ring
+      · rw [hm1, Nat.mul_div_cancel_left o (by positivity)]; exact hodd
+    · rw [min_eq_right hcn]
+      refine ⟨by omega, ?_, Or.inl (by omega)⟩
+      have e2 : 2 ^ c = 2 ^ n1 * 2 ^ (c - n1) := by rw [← pow_add]; congr 1; omega
+      have hm1' : m1 = 2 ^ n1 * (2 ^ (c - n1) * o) := by rw [hm1, e2]; ring
+      rw [hm1', Nat.mul_div_cancel_left _ (by positivity), Nat.sub_self, Nat.sub_zero, ← s2, hm1']
+      have : n = n1 + (n - n1) := by omega
+      conv_lhs => rw [this]
+      rw [pow_add]; ring
+
+/-- what `mordR` guarantees: `rsrc = r * 2^(n - n')`, and either nothing is left to
+    shift (`n' = 0`) or `r` is odd -/
+theorem mordR_spec (r : Int) (n : Nat) :
+    (mordR r n).2 ≤ n ∧ (mordR r n).1 * 2 ^ (n - (mordR r n).2) = r ∧
+    ((mordR r n).2 = 0 ∨ (mordR r n).1 % 2 = 1) := by
+  rw [mordR_eq]
+  obtain ⟨s1, s2, s3⟩ := mordMag_spec r.natAbs n
+  generalize (mordMag r.natAbs n).1 = m' at *
+  generalize (mordMag r.natAbs n).2 = n' at *
+  refine ⟨s1, ?_, ?_⟩
+  · have s2' : (m' : ℤ) * 2 ^ (n - n') = (r.natAbs : ℤ) := by exact_mod_cast s2
+    simp only []
+    split_ifs with h
+    · rw [s2']; omega
+    · rw [neg_mul, s2']; omega
+  · rcases s3 with h | h
+    · exact Or.inl h
+    · right; simp only []; split_ifs <;> omega
+
+def mul2expVal (a : Q) (n : Nat) : Q := ⟨a.num * 2 ^ (mordR a.den n).2, (mordR a.den n).1⟩
+
+def div2expVal (a : Q) (n : Nat) : Q :=
+  if a.num = 0 then ⟨0, 1⟩ else ⟨(mordR a.num n).1, a.den * 2 ^ (mordR a.num n).2⟩
+
+theorem mul_2exp_eq (dst src n : Nat) (h : Heap) :
+    mul_2exp dst src n h = upd h dst (mul2expVal (h src) n) := by
+  unfold mul_2exp mord_2exp mul2expVal
+  rcases mordR (h src).den n with ⟨r, n'⟩
+  simp only [setDen_num, setNum_setDen]
+  split_ifs with h0
+  · rfl
+  · have : n' = 0 := by omega
+    subst this; simp
+
+theorem div_2exp_eq (dst src n : Nat) (h : Heap) :
+    div_2exp dst src n h = upd h dst (div2expVal (h src) n) := by
+  unfold div_2exp mord_2exp div2expVal
+  split_ifs with hz
+  · rw [setDen_setNum]
+  · rcases mordR (h src).num n with ⟨r, n'⟩
+    simp only [setNum_den, setDen_setNum]
+    split_ifs with h0
+    · rfl
+    · have : n' = 0 := by omega
+      subst this; simp
+
+theorem mul2expVal_spec {a : Q} (ha : Canonical a) (n : Nat) :
+    (mul2expVal a n).toRat = a.toRat * 2 ^ n ∧ Canonical (mul2expVal a n) := by
+  rw [canonical_iff] at ha ⊢
+  obtain ⟨hd, c⟩ := ha
+  obtain ⟨s1, s2, s3⟩ := mordR_spec a.den n
+  unfold mul2expVal
+  generalize (mordR a.den n).1 = r at *
+  generalize (mordR a.den n).2 = n' at *
+  have hr : 0 < r := by
+    have : 0 < r * 2 ^ (n - n') := by rw [s2]; exact hd
+    exact pos_of_mul_pos_right' this (by positivity)
+  refine ⟨?_, hr, ?_⟩
+  · have hx : (⟨a.num * 2 ^ n', r⟩ : Q).toRat = ((a.num * 2 ^ n : ℤ) : ℚ) / ((a.den : ℤ) : ℚ) := by
+      apply toRat_of_cross hd.ne' hr.ne'
+      show a.num * 2 ^ n' * a.den = a.num * 2 ^ n * r
+      rw [← s2]
+      have : n = n' + (n - n') := by omega
+      conv_rhs => rw [this]
+      rw [pow_add]; ring
+    rw [hx]; unfold Q.toRat; push_cast; ring
+  · have c1 : IsCoprime a.num r := c.of_isCoprime_of_dvd_right ⟨2 ^ (n - n'), s2.symm⟩
+    refine IsCoprime.mul_left c1 ?_
+    rcases s3 with h | h
+    · subst h; simpa using isCoprime_one_left
+    · exact (isCoprime_of_odd h).pow_left
+
+theorem div2expVal_spec {a : Q} (ha : Canonical a) (n : Nat) :
+    (div2expVal a n).toRat = a.toRat / 2 ^ n ∧ Canonical (div2expVal a n) := by
+  have ha0 := ha
+  rw [canonical_iff] at ha ⊢
+  obtain ⟨hd, c⟩ := ha
+  unfold div2expVal
+  split_ifs with hz
+  · refine ⟨?_, by norm_num, isCoprime_one_right⟩
+    simp [Q.toRat, hz]
+  · obtain ⟨s1, s2, s3⟩ := mordR_spec a.num n
+    generalize (mordR a.num n).1 = r at *
+    generalize (mordR a.num n).2 = n' at *
+    have hD : 0 < a.den * 2 ^ n' := by positivity
+    refine ⟨?_, hD, ?_⟩
+    · have hx : (⟨r, a.den * 2 ^ n'⟩ : Q).toRat = ((a.num : ℤ) : ℚ) / ((a.den * 2 ^ n : ℤ) : ℚ) := by
+        apply toRat_of_cross (by positivity) hD.ne'
+        show r * (a.den * 2 ^ n) = a.num * (a.den * 2 ^ n')
+        rw [← s2]
+        have : n = n' + (n - n') := by omega
+        conv_lhs => rw [this]
+        rw [pow_add]; ring
+      rw [hx]; unfold Q.toRat; push_cast
+      have x1 : (a.den : ℚ) ≠ 0 := by exact_mod_cast hd.ne'
+      field_simp
+    · have c1 : IsCoprime r a.den := c.of_isCoprime_of_dvd_left ⟨2 ^ (n - n'), s2.symm⟩
+      refine IsCoprime.mul_right c1 ?_
+      rcases s3 with h | h
+      · subst h; simpa using isCoprime_one_right
+      · exact (isCoprime_of_odd h).symm.pow_right
 end Mpir.Mpq
